@@ -607,6 +607,21 @@ def correspondence(R, ctx):
                 Iimpl = np.asarray(tn.poi_to_ind([float(p) for p in pts], a, b, n, kind))
                 meta.append(('indices', name, a, b, n, kind, [int(x) for x in Iimpl], [float(p) for p in pts]))
                 dist['grids'] += 1
+    # index arrays of every small integer dtype whose range the grid size reaches (all nodes; the model gets the plain list)
+    dist['index_dtypes'] = {}
+    for (name, a, b), (n, dts) in itertools.product([DY_BOXES[0], DY_BOXES[2]],
+                                                   [(65, ['int8']), (128, ['int8', 'uint8']), (129, ['uint8', 'int16']),
+                                                    (256, ['uint8', 'uint16'])]):
+        for kind in ['uni', 'cheb']:
+            dt = rng.choice(dts)
+            I = list(range(n))
+            Ximpl = np.asarray(tn.ind_to_poi(np.array(I, dtype=dt), a, b, n, kind), dtype=float)
+            if kind == 'uni':
+                cases.append(f'shQ1 (ind_to_poi1 OQc idQ (q 0 1) {C.zlist(I)} (GSc {ql(a)}) (GSc {ql(b)}) (GSc {n}) KUni)')
+            else:
+                cases.append(f'shQ1 (ind_to_poi1 OQc (lookup {_tbl(_cheb_cos_table(n))}) {ql(pif)} {C.zlist(I)} (GSc {ql(a)}) (GSc {ql(b)}) (GSc {n}) KCheb)')
+            meta.append(('nodes', name + ' I:' + dt, a, b, n, kind, [float(x) for x in Ximpl]))
+            dist['index_dtypes'][dt] = dist['index_dtypes'].get(dt, 0) + 1
     vals = C.run_cases('C18_nodes', HEADER, cases, chunk=24)
     bad = []
     for v, mt in zip(vals, meta):
@@ -1108,6 +1123,41 @@ def o_ties18(tn, p2, q2, ks):
     return None
 
 
+INT_DTYPES = ['int8', 'uint8', 'int16', 'uint16', 'int32', 'uint32', 'int64', 'uint64']
+
+
+def o_idtypes(tn, a, b, kind, dt, n, idx):
+    """index arrays of every integer dtype, with indices up to the largest value the dtype holds (n up to that + 1): the
+    points are bit for bit those of the int64 index array (1-D multi-index, batches [m, 1] and [m, 2], Python list, float
+    indices), the index array is unchanged, and poi_to_ind brings every index back; n given as an array of that dtype too"""
+    I64 = np.array(idx, dtype=np.int64)
+    shapes = [('multi-index', lambda v: v), ('batch [m,1]', lambda v: v.reshape(-1, 1)),
+              ('batch [m,2]', lambda v: np.stack([v, v[::-1]], axis=1))]
+    for what, sh in shapes:
+        ref = np.asarray(tn.ind_to_poi(sh(I64), a, b, n, kind), dtype=float)
+        forms = [(dt, sh(I64).astype(dt)), ('float64 indices', sh(I64).astype(float)), ('list', sh(I64).tolist())]
+        if n <= int(np.iinfo(dt).max):
+            forms.append((dt + ' (n as an array of that dtype)', sh(I64).astype(dt)))
+        for nm, arg in forms:
+            nn = n if 'n as an array' not in nm else np.full(np.asarray(arg).shape[-1], n, dtype=dt)
+            keep = arg.copy() if isinstance(arg, np.ndarray) else None
+            got = np.asarray(tn.ind_to_poi(arg, a, b, nn, kind), dtype=float)
+            if got.shape != ref.shape or not np.array_equal(got, ref):
+                bad = np.argwhere(got != ref)[0].tolist() if got.shape == ref.shape else None
+                return dict(what=f'ind_to_poi({kind}), n = {n}: indices given as {nm} ({what}) do not give the points of '
+                                 f'the int64 index array', position=bad,
+                            index=(int(np.asarray(sh(I64))[tuple(bad)]) if bad else None),
+                            got=(float(got[tuple(bad)]) if bad else list(got.shape)),
+                            expected=(float(ref[tuple(bad)]) if bad else list(ref.shape)))
+            if keep is not None and (arg.dtype != keep.dtype or not np.array_equal(arg, keep)):
+                return dict(what=f'ind_to_poi({kind}) modified its index array ({nm})')
+        back = np.asarray(tn.poi_to_ind(ref, a, b, n, kind))
+        if back.tolist() != sh(I64).tolist():
+            return dict(what=f'poi_to_ind(ind_to_poi(i)) != i ({kind}), n = {n} ({what})', got=back.tolist()[:6],
+                        expected=sh(I64).tolist()[:6])
+    return None
+
+
 def o_bign(tn, a, b, n, kind, idx):
     """very large grids (n up to 2^20 + 1) and n = 2 on selected indices: end points, in-box, reference nodes, round trip,
     boundary / outside points, single = element of a batch"""
@@ -1136,7 +1186,7 @@ def o_bign(tn, a, b, n, kind, idx):
     return None
 
 
-ORACLES = dict(ties=o_ties18, pow2=o_scale18, bign=o_bign, history=o_history, grid=o_grid, points=o_points, scale=o_scale, batch=o_batch, bcast=o_bcast, flat=o_flat,
+ORACLES = dict(idtypes=o_idtypes, ties=o_ties18, pow2=o_scale18, bign=o_bign, history=o_history, grid=o_grid, points=o_points, scale=o_scale, batch=o_batch, bcast=o_bcast, flat=o_flat,
                reject=o_reject, cdf=o_cdf)
 
 
@@ -1254,7 +1304,7 @@ def search(R, ctx, deep, hints):
                 if not precondition(a, b, n, kind):
                     skipped += 1
                     continue
-                idx = sorted({0, 1, n // 2, n - 2, n - 1} & set(range(n))) + [rng.randrange(n) for _ in range(6)]
+                idx = sorted(v for v in {0, 1, n // 2, n - 2, n - 1} if 0 <= v < n) + [rng.randrange(n) for _ in range(6)]
                 _run(tn, 'bign', (a, b, n, kind, idx), fails, cnt)
     for t in range(160 if deep else 48):
         name, a, b = rng.choice(BOXES[:14])
@@ -1266,6 +1316,19 @@ def search(R, ctx, deep, hints):
         idx = [rng.randrange(n) for _ in range(5)] + [0, n - 1]
         ts = [rng.uniform(-0.3, 1.3) for _ in range(6)] + [0.0, 1.0]
         _run(tn, 'pow2', (a, b, n, kind, p2, idx, ts), fails, cnt)
+    # 4e. index arrays of every integer dtype up to the largest value the dtype holds (n up to that + 1), both kinds
+    for dt in INT_DTYPES:
+        mx = int(np.iinfo(dt).max)
+        for n in sorted({min(mx + 1, 2 ** 40 + 1), min(mx, 2 ** 40), min(mx // 2 + 2, 2 ** 20 + 1), 17}):
+            for kind in ['uni', 'cheb']:
+                name, a, b = rng.choice([bx for bx in BOXES if bx[0] in ('unit', 'sym', 'asym', 'asym2', 'neg')])
+                if not precondition(a, b, n, kind):
+                    skipped += 1
+                    continue
+                top = min(mx, n - 1)
+                idx = sorted(v for v in {0, 1, top // 4, top // 2 - 1, top // 2, top // 2 + 1, (3 * top) // 4, top - 1, top} if 0 <= v < n) + \
+                    [rng.randrange(top + 1) for _ in range(5)]
+                _run(tn, 'idtypes', (a, b, kind, dt, n, idx), fails, cnt)
     # 4d. exact ties of the rounding step and the doubles next to them (both parities of k, k = 0, boundaries)
     for p2 in [0, 3, -7, 40, -40, 500, -500]:
         for q2 in [1, 2, 4, 10, 20]:
